@@ -2,6 +2,8 @@ import PhotVerif.Driver.Basic
 import PhotVerif.Model.Lazy
 import PhotVerif.Model.ProfileNorm
 import PhotVerif.Gen.Bkg2DTable
+import PhotVerif.Model.Profile
+import PhotVerif.Driver.ApSum
 namespace PhotVerif.Driver
 open PhotVerif PhotVerif.Model.Lazy PhotVerif.Gen.Bkg2DTable
 
@@ -31,6 +33,21 @@ def handleLazy (op : String) (args : List String) : Option String :=
       let s := Model.ProfileNorm.run Gen.ProfileTable.rows ops
       some ("ok " ++ showRat s.norm ++ " " ++ joinSp (s.sc.map fun o => match o with
         | some v => showRat v | none => "-"))
+  | "prof.monoprefix", vs => do
+      let v ← allSome (vs.map parseRat?)
+      some s!"ok {Model.Profile.monoPrefixLen v}"
+  | "prof.radial", rest =>
+      match splitBar rest with
+      | [fs, as_, es] => do
+          let f ← allSome (fs.map parseRat?)
+          let a ← allSome (as_.map parseRat?)
+          let showO : Option Rat → String := fun o => match o with | some v => showRat v | none => "nan"
+          let p := Model.Profile.radialProfile f a
+          let e ← (if es == ["-"] then some [] else do
+            let e ← allSome (es.map parseRat?)
+            some (Model.Profile.radialErr2 e a))
+          some ("ok | " ++ joinSp (p.map showO) ++ " | " ++ joinSp (e.map showO))
+      | _ => none
   | _, _ => none
 
 end PhotVerif.Driver
